@@ -134,7 +134,7 @@ func spellings(c byte, q byte) map[string]string {
 func TestC16Table(t *testing.T) {
 	seedNote(t)
 	StartWatchdog("C16", 60*time.Second)
-	st := NewStats("C16", "table", "exhaustive: every byte 0x01..0x7f in every spelling (raw, \\xHH lower and upper case, named escape, backslash + itself) in both quote styles, alone and between two other characters; \\x followed by 0, 1 or 2 hex digits, then the end of the literal, a non-hex character, a blank or a further escape; oracle: the harness knows the bytes the spelling denotes: AstString.Value equals them, `find all <literal>` matches exactly that text and none of its one-byte mutations or its truncation; every case non-trivial, distinct by spelling")
+	st := NewStats("C16", "table", "exhaustive: every byte 0x01..0x7f in every spelling (and 0x00 as \\x00) (raw, \\xHH lower and upper case, named escape, backslash + itself) in both quote styles, alone and between two other characters; \\x followed by 0, 1 or 2 hex digits, then the end of the literal, a non-hex character, a blank or a further escape; oracle: the harness knows the bytes the spelling denotes: AstString.Value equals them, `find all <literal>` matches exactly that text and none of its one-byte mutations or its truncation; every case non-trivial, distinct by spelling")
 	st.Exhaustive = true
 	defer st.Write()
 	run := func(lit, bytes, class string) {
@@ -157,6 +157,10 @@ func TestC16Table(t *testing.T) {
 				run(qs+"a"+sp+"b"+qs, "a"+string([]byte{byte(c)})+"b", kind+"_embedded")
 			}
 		}
+		// the NUL byte can only be spelled with an escape (a raw NUL ends the source)
+		run(qs+"\\x00"+qs, "\x00", "hex_nul")
+		run(qs+"a\\x00b"+qs, "a\x00b", "hex_nul")
+		run(qs+"\\x00\\x00\\x01"+qs, "\x00\x00\x01", "hex_nul")
 		// \x corner cases
 		followers := []struct{ src, bytes string }{{"", ""}, {"Z", "Z"}, {" ", " "}, {"\\n", "\n"}, {"\\\\", "\\"}, {"\\x41", "A"}, {"g", "g"}, {"\\x", "x"}, {"\\" + qs, qs}}
 		for _, h := range []string{"", "0", "4", "a", "F", "9"} {
